@@ -682,15 +682,30 @@ def text_dates(ctx, report, RULE='C05.R11'):
         return me._parsed_values.get('value')
     # the functions that print a date with a literal zone designator: (function, how to call it on a value)
     printers = []
+
+    def text_of(f, node):
+        """the format string: a literal, or a module / class level name bound to one"""
+        if isinstance(node, ast.Constant) and isinstance(node.value, str):
+            return node.value
+        try:
+            h = class_call_hook(f.cls, None, model)
+            v = Evaluator({}, h, h.name_hook_for(f.module, None)).ev(node)
+        except Exception:      # pylint: disable=broad-except
+            return None
+        return v if isinstance(v, str) else None
     for f in model.functions():
+        if f.cls is None:
+            continue
         for n in ast.walk(f.node):
-            if isinstance(n, ast.Call) and isinstance(n.func, ast.Attribute) and n.func.attr == 'compose_date_time' and len(n.args) >= 2 \
-                    and isinstance(n.args[1], ast.Constant) and isinstance(n.args[1].value, str) and f.cls is not None and f.cls.name != 'ComposerText':
-                printers.append((f, 'primitive', n.args[1].value))
-            elif isinstance(n, ast.Call) and isinstance(n.func, ast.Attribute) and n.func.attr == 'strftime' and n.args and isinstance(n.args[0], ast.Constant) \
-                    and isinstance(n.args[0].value, str) and any(z in n.args[0].value for z in ZONE_LITERALS) and f.cls is not None \
+            if isinstance(n, ast.Call) and isinstance(n.func, ast.Attribute) and n.func.attr == 'compose_date_time' and len(n.args) >= 2 and f.cls.name != 'ComposerText':
+                fmt = text_of(f, n.args[1])
+                if fmt is not None:
+                    printers.append((f, 'primitive', fmt))
+            elif isinstance(n, ast.Call) and isinstance(n.func, ast.Attribute) and n.func.attr == 'strftime' and n.args \
                     and f.name != 'compose_date_time' and len(f.node.args.args) == 1:
-                printers.append((f, 'method', n.args[0].value))
+                fmt = text_of(f, n.args[0])
+                if fmt is not None and any(z in fmt for z in ZONE_LITERALS):
+                    printers.append((f, 'method', fmt))
     ct = model.try_cls('ComposerText')
     cf = ct.methods.get('compose_date_time') if ct is not None else None
 
